@@ -56,6 +56,7 @@ def run(ctx):
             continue
         crate = ctx.crate(cfg)
         read(cfg, crate, rep)
+        export(cfg, crate, rep)
         debug(cfg, crate, rep)
         if cfg != "K3":
             taint(cfg, crate, rep)
@@ -286,6 +287,34 @@ def _leaves(e):
     if k == "Block" and e.get("expr") is not None:
         return _leaves(e["expr"])
     return [e]
+
+
+_PRIV_OUT = None
+
+
+def export(cfg, crate, rep):
+    """Back-end calls that hand out private key material as bytes (PKCS#8 / SEC1 documents, seeds, private scalars)
+    run only on behalf of the key generators, whose result is stored as the key pair's own document."""
+    global _PRIV_OUT
+    import re, facts
+    if _PRIV_OUT is None:
+        _PRIV_OUT = re.compile(r"::generate_pkcs8$|AsDer<[^>]*(Pkcs8V1Der|Pkcs8V2Der|EcPrivateKeyRfc5915Der|EcPrivateKeyBinDer)|AsBigEndian<[^>]*(PrivateKey|Seed)|::to_pkcs8(v1|v2)?$|KeyPair::private_key$|KeyPair::seed$|Curve25519SeedBin|::to_seed")
+    allowed = {"key_pair::KeyPair::generate_for", "key_pair::KeyPair::generate_rsa_inner", "key_pair::KeyPair::generate_rsa", "key_pair::KeyPair::generate"}
+    sites = {}
+    for name, b in crate.bodies.items():
+        if "mir" not in b or common.is_test_fn(name):
+            continue
+        for blk in b["mir"]["blocks"]:
+            t = blk["term"]
+            if t["k"] != "Call":
+                continue
+            c = facts.norm_path(t.get("inst") or t.get("callee") or "")
+            if ("ring::" in c or "aws_lc_rs::" in c) and _PRIV_OUT.search(c):
+                sites.setdefault(c, set()).update(common.known_owners(crate, name.split("::{closure")[0]))
+    for c, owners in sorted(sites.items()):
+        rep.ob("C19.export", "%s|%s" % (cfg, c), owners <= allowed, "a back-end call that serialises private key material runs only on behalf of a key generator (its output becomes the key pair's stored document)", expected=sorted(allowed), found=sorted(owners))
+    if cfg in ("K1", "K2"):
+        rep.floor("C19.export", "private-key exporting back-end calls (%s)" % cfg, len(sites), 2)
 
 
 def cli(cfg, ctx, rep):
